@@ -69,7 +69,8 @@ def obligations_scalar(ctx, classes):
 
 
 def obligations_validate(ctx):
-    """Re-translate StreamingDetector / BatchDetector ._validate_X / ._validate_y of the tree under test
+    """Re-translate StreamingDetector / BatchDetector ._validate_X / ._validate_y and the validation prologues of ADWIN / CUSUM /
+    PageHinkley .update, HistogramDensityMethod.set_reference and CDBD's early guards of the tree under test
     (tools/py2coq_validate.py) and re-check coqgen/Validate_Gen_Proofs.v against the fresh translation: the translated
     validators ARE the hand-written model coq/Validate.v on every state and input, and raise nothing but ValueError.
     unsupported / ill-typed -> ok None, broken proof -> ok False."""
@@ -108,7 +109,7 @@ def obligations_validate(ctx):
             try:
                 shutil.copy(os.path.join(coqrun.VERIF, "coqgen", "Validate_Gen_Search.v"), d)
                 rs = subprocess.run(args + ["Validate_Gen_Search.v"], cwd=d, capture_output=True, text=True, timeout=300)
-                found = [re.sub(r"\s+", " ", m) for m in re.findall(r"= (\(\"[\w\.]+\",\s*Some.*?)\n\s+:", rs.stdout, re.S)]
+                found = [re.sub(r"\s+", " ", m) for m in re.findall(r"= (\(\"[\w\.\[\]=]+\",\s*Some.*?)\n\s+:", rs.stdout, re.S)]
                 wit = ("; translated source and model differ at (method, (state, input, (translated result, no-other-exception, model result))): "
                        + " | ".join(found)) if found else "; no differing point on the search grid"
             except Exception as e:
